@@ -123,10 +123,10 @@ def write_replay(pid: str, oid: str, key: str, body: str) -> str:
     path = os.path.join(REPLAY_DIR, f"{pid}_{oid.replace('.', '_')}_{h}.py")
     header = (
         "#!/usr/bin/env python3\n"
-        f"# Replay for property {pid}, obligation {oid}.\n"
-        f"# finding key: {key}\n"
-        "# Run with: /verif/.venv/bin/python <this file>   (exit 1 = violation reproduces)\n"
-        "import sys\nsys.path.insert(0, %r)\nsys.path.insert(0, %r)\n" % (REPO, VERIF)
+        + f"# Replay for property {pid}, obligation {oid}.\n"
+        + "# finding key: " + key.replace("\n", " ") + "\n"
+        + "# Run with: /verif/.venv/bin/python <this file>   (exit 1 = violation reproduces)\n"
+        + f"import sys\nsys.path.insert(0, {REPO!r})\nsys.path.insert(0, {VERIF!r})\n"
     )
     with open(path, "w") as fh:
         fh.write(header + body)
